@@ -24,6 +24,8 @@
 (*   [k|->"fn", f, args]     built-in scalar function (Builtins.tla)        *)
 (*   [k|->"sub", q]  [k|->"exists", q]                                      *)
 (*  select item: [k|->"star"]  or  [k|->"item", e, as]  (as = "" : none)     *)
+(*  (a star may carry a qualifier, [k|->"star", qual]: as coded the          *)
+(*  qualifier is not looked at)                                              *)
 (*  from: [k|->"table", p|->Seq(STRING), as]                                *)
 (*        [k|->"derived", q, as]                                            *)
 (*        [k|->"join", ...]   (Joins.tla)                                   *)
@@ -183,6 +185,19 @@ Ev(e, row, data) ==
                 ELSE IF e.op = "~" THEN (IF IsNum(a) THEN NumV(-Trunc(a) - 1) ELSE Err)
                 ELSE IF e.op = "!" THEN (IF IsBool(a) THEN BoolV(~a.b) ELSE Err)
                 ELSE Err
+      \* SUBSTR(s, from, len) as coded: the bytes from .. from+len of a string (positions from 0, both truncated);
+      \* anything else - a NULL or non-string s, a non-numeric position, a range outside the string - is an error.
+      \* Bytes and code points coincide for ASCII only: other strings are left open
+      [] e.k = "substr" ->
+            LET s == Ev(e.s, row, data)
+                f == Ev(e.from, row, data)
+                n == Ev(e.len, row, data)
+            IN  IF IsErr(s) \/ IsErr(f) \/ IsErr(n) THEN Err
+                ELSE IF ~IsStr(s) \/ ~IsNum(f) \/ ~IsNum(n) THEN Err
+                ELSE IF \E i \in DOMAIN s.c : s.c[i] > 127 THEN Unspec
+                ELSE LET lo == Trunc(f)
+                         hi == Trunc(RAdd(f, n))
+                     IN  IF lo < 0 \/ hi > Len(s.c) \/ lo > hi THEN Err ELSE StrV(SubSeq(s.c, lo + 1, hi))
       [] e.k = "cmp" ->
             LET a == Ev(e.l, Marked(row, data), data)
                 b == Ev(e.r, Marked(row, data), data)
@@ -408,13 +423,24 @@ RunQ(q, data) ==
 
 OnHolds(on, l, r, data) == Ev(on, Merge(l, r), data)
 
+\* JOIN ... USING (c1, ..., cn) has no ON: as coded (BuildJoin) the condition is built from the two aliases,
+\* ((TRUE AND l.c1 = r.c1) AND l.c2 = r.c2) ... - and TRUE AND TRUE when the list is empty
+RECURSIVE UsingOn(_, _, _)
+UsingOn(la, ra, cols) ==
+    LET eq(c) == [k |-> "cmp", op |-> "=", l |-> [k |-> "col", p |-> <<la, c>>], r |-> [k |-> "col", p |-> <<ra, c>>]]
+        T == [k |-> "lit", v |-> BoolV(TRUE)]
+    IN  IF cols = <<>> THEN [k |-> "and", l |-> T, r |-> T]
+        ELSE IF Len(cols) = 1 THEN [k |-> "and", l |-> T, r |-> eq(cols[1])]
+        ELSE [k |-> "and", l |-> UsingOn(la, ra, SubSeq(cols, 1, Len(cols) - 1)), r |-> eq(cols[Len(cols)])]
+JoinOn(from) == IF "using" \in DOMAIN from THEN UsingOn(from.l.as, from.r.as, from.using) ELSE from.on
+
 JoinRows(from, data) ==
     LET L == Source(from.l, data)
         R == Source(from.r, data)
     IN  IF IsErr(L) \/ IsErr(R) THEN Err ELSE
     LET ls == L.e
         rs == R.e
-        m  == [i \in 1..Len(ls) |-> [j \in 1..Len(rs) |-> OnHolds(from.on, ls[i], rs[j], data)]]
+        m  == [i \in 1..Len(ls) |-> [j \in 1..Len(rs) |-> OnHolds(JoinOn(from), ls[i], rs[j], data)]]
     IN  IF \E i \in DOMAIN ls : \E j \in DOMAIN rs : ~IsBool(m[i][j]) THEN Err ELSE
     LET pairs == Concat([i \in 1..Len(ls) |->
                     Concat([j \in 1..Len(rs) |-> IF m[i][j].b THEN <<Merge(ls[i], rs[j])>> ELSE <<>>])])
